@@ -573,6 +573,8 @@ func checkC11(rc *Run) error {
 	if len(illdocs) == 0 {
 		return machinery("Gen_Anchors produced no ill-typed documents")
 	}
+	// anchors that refer to themselves: no finite value is defined, an error is the only answer - never an abort
+	illdocs = append(illdocs, "m: &x\n  <<: *x\n  q: 1\n", "m: &x [*x]\n", "m: &x {q: *x}\n", "b: &b {<<: *c}\nc: &c {<<: *b}\nm: *b\n", "m: &x\n  <<: [*x]\n  q: 1\n")
 	for i, text := range append(illdocs, adocs...) {
 		if !rc.Thorough() && i >= len(illdocs) && i%4 != int(rc.Seed%4+4)%4 {
 			continue
